@@ -1,5 +1,5 @@
 """Which contracts decide which property."""
-from . import indexing, bases, align, axes, metadata, reshape, dataset, missing, transform
+from . import indexing, bases, align, axes, metadata, reshape, dataset, missing, transform, join
 
 GLOBAL_ASSUMPTIONS = [
     "NumPy implements the contracts in dverif/symnp.py (validated by sampling against the installed NumPy, never proved)",
@@ -16,7 +16,6 @@ PROPERTIES = {
         "level": "proof",
         "min_obligations": 2000,
     },
-    "T": {"contracts": [transform.Diff], "level": "proof"},
     "C03": {
         "contracts": [bases.SetItem, indexing.MaybeCastType, (bases.Accessors, r"write|put|setitem"), (bases.ItemForwarding, r"^set"),
                       (bases.GetIndices, r"^r[01]-")],
@@ -29,6 +28,12 @@ PROPERTIES = {
         "level": "other",
         "min_obligations": 2000,
         "explanation": "proved: direction / uniqueness / order of Axis.union and intersection, frame and sort of _get_aligned_axes (real bodies, exact identity), align's composition over the callee contracts (labels, data, NaN fill, dims, forwarding, inputs untouched), reindex_axis. bounded stand-in (exhaustive, lengths <= 3): the set-inclusion clauses of union / intersection / _common_axis, on which the 'set union / intersection' sentence of the property rests.",
+    },
+    "C12": {
+        "contracts": [join.Stack, join.Concatenate, join.JoinAligned],
+        "level": "other",
+        "min_obligations": 1500,
+        "explanation": "proved: stack / concatenate without align (labels, by-name placement of every cell, refusal of differing labels, no metadata, inputs untouched); bounded stand-in: align=True (composition with align, which is proved under C06).",
     },
     "C08": {
         "contracts": [transform.Reduce, transform.ReduceNativeOnly],
